@@ -93,8 +93,10 @@ _PROPS = {(): 4, (("algn", "ctr"),): 1, (("algn", "r"), ("lvl", "1")): 2, (("lvl
 
 def project_body(shape_el) -> list[dict]:
     """Seq(Para) of spec/TextBody.tla from the element of a p:sp / p:graphicFrame, plain lxml calls only."""
-    txb = next(shape_el.iter(*_TXB))
+    txb = next(shape_el.iter(*_TXB), None)
     body = []
+    if txb is None:              # a shape without a text body holds no paragraph
+        return body
     for p in txb:
         if p.tag != _P:
             continue
@@ -129,7 +131,7 @@ class _Handle:
 
     def read_frame(self) -> str:
         # the reader of the entry point under test: TextFrame.text, _Cell.text, Shape.text
-        return self.tf.text if self.site == "frame" else self.holder.text
+        return self.tf.text if self.site in ("frame", "nobody") else self.holder.text
 
     def observe(self) -> dict:
         paras = self.tf.paragraphs
@@ -184,6 +186,14 @@ def _new_container(slide, site, k):
         return slide.shapes.add_shape(MSO_SHAPE.RECTANGLE, 10 * k, 0, 914400, 400000)
     if site == "cell":
         return slide.shapes.add_table(1, 1, 10 * k, 0, 914400, 400000)
+    if site == "nobody":
+        # a p:sp WITHOUT p:txBody (what python-pptx itself makes for a picture placeholder; lxml edit of a new text box): the first
+        # touch of .text_frame gives it a body with one empty paragraph - and that body must be the shape's, not a detached one
+        sp = slide.shapes.add_textbox(10 * k, 0, 914400, 400000)
+        for el in list(sp._element):
+            if el.tag in _TXB:
+                sp._element.remove(el)
+        return slide.shapes[-1]
     raise RuntimeError("unknown site " + site)
 
 
